@@ -562,7 +562,11 @@ func (r *srvRun) step(st map[string]any, ev map[string]any) error {
 		}
 		r.send(slot, op, sim.TAgreed, f...)
 	case "setinfo":
-		f := []sim.F{sim.Fld(sim.FUserName, bytesOf(st["name"])), sim.Fld(sim.FUserIconID, sim.U16(intOf(st["icon"])))}
+		icon := sim.U16(intOf(st["icon"]))
+		if intOf(st["icon4"]) == 1 {
+			icon = sim.U32(intOf(st["icon"])) // some clients send the icon as a 4-byte integer
+		}
+		f := []sim.F{sim.Fld(sim.FUserName, bytesOf(st["name"])), sim.Fld(sim.FUserIconID, icon)}
 		if o := intOf(st["opts"]); o >= 0 {
 			f = append(f, sim.Fld(sim.FOptions, sim.U16(o)))
 			if o&4 != 0 {
@@ -621,6 +625,8 @@ func (r *srvRun) step(st map[string]any, ev map[string]any) error {
 		}
 		if k := intOf(st["chat"]); k != 0 {
 			f = append(f, sim.Fld(sim.FChatID, r.chatID(k)))
+		} else if intOf(st["zeroid"]) == 1 {
+			f = append(f, sim.Fld(sim.FChatID, []byte{0, 0, 0, 0})) // a zero chat ID means the public chat
 		}
 		r.send(slot, op, sim.TChatSend, f...)
 	case "invitenew":
